@@ -1,6 +1,23 @@
 """Per-property configuration of the check driver (streams, sizes, notes)."""
 
 CHECKS = {
+    "C06": {
+        "streams": [{"name": "quote.str", "quick": 8000, "thorough": 200000},
+                    {"name": "quote.needs", "quick": 8000, "thorough": 200000},
+                    {"name": "quote.ident", "quick": 8000, "thorough": 200000}],
+        "rule": "quote.*: fixed corpus + sweep of the Basic Multilingual Plane one character at a time in three contexts "
+                "(alone, after 'a', before 'a'; quick tier: one eighth of the plane chosen by the seed, thorough: all of it) + random "
+                "contents biased to quotes, backslashes, newlines, CR, NUL, keywords in mixed case, digits first; quote.ident with 1-3 "
+                "segments incl. empty ones. Compared with the model: the exact output text. Property oracle on the implementation: "
+                "the quoted text followed by 13 different continuations scans as one token covering exactly the quoted text; inside "
+                "`a = <q> AND b = 2` / `<q> = 1 AND b = 2` / `SELECT f FROM <q> WHERE b = 2` the AST keeps its shape and carries the value; "
+                "IdentNeedsQuotes(s)=false iff s bare scans as that identifier before 8 continuations. non-trivial = non-empty input",
+        "trusted_base": [
+            "modelled, not verified: strings.NewReplacer on single-byte patterns (re-implemented per character); that byte-level "
+            "replacement commutes with UTF-8 decoding (exercised by the property oracle, which works on the real Go strings); "
+            "strings.ToLower inside Lookup modelled as ASCII lower-casing (result of IdentNeedsQuotes is insensitive to the difference)"],
+        "assumptions": ["multi-part names db.rp.m are covered by correspondence and the property oracle; the theorems cover single tokens"],
+    },
     "C05": {
         "streams": [{"name": "scan.ops", "quick": 30000, "thorough": 1000000}],
         "rule": "scan.ops: fixed corpus of lexical corner cases + random concatenations of 0-8 token-like fragments "
